@@ -226,7 +226,7 @@ mod test {
     }
 }
 
-#[cfg(feature = "verif-hooks")]
+#[cfg(feature = "verif-hooks-wire")]
 pub(crate) mod verif_hooks {
     //! Thin wrappers for the external verification harness; they only call the private functions above.
     use super::*;
